@@ -60,7 +60,8 @@ def listing(d):
 def gen_layout(seed, idx):
     rng = gen.rng_for(seed, "c10", idx)
     unit = rng.choice([1, 1, 400, 125_000_000])
-    t0 = {1: rng.choice([0, 3]), 400: rng.choice([0, 800]), 125_000_000: 3_000_000_000}[unit]
+    t0 = {1: rng.choice([0, 3]), 400: rng.choice([0, 800]), # epoch-scale timestamps (beyond 2**53 ns): where float arithmetic on times stops being exact
+          125_000_000: rng.choice([3_000_000_000, 1_700_000_003_000_000_000])}[unit]
     rows = []
     t = t0
     for i in range(rng.randint(1, 6)):
